@@ -2,6 +2,7 @@ package mon
 
 import (
 	"fmt"
+	"github.com/ipfs/go-cid"
 	"math/rand"
 	"strings"
 	"sync"
@@ -312,6 +313,12 @@ func c13Bounded(run *evid.Run, i int, j *Journal) {
 				_, _ = s.L.ToMultihash(s.w.Ctx)
 				ch := make(chan iface.IPFSLogEntry, 4096)
 				_ = s.L.Iterator(&iface.IteratorOptions{}, ch)
+				// bounds at the edge of what a trimmed log still holds (its oldest entry names predecessors that are gone)
+				if vs := s.L.Values().Slice(); len(vs) > 0 && vs[0] != nil {
+					for _, o := range []*iface.IteratorOptions{{LT: []cid.Cid{vs[0].GetHash()}}, {LTE: []cid.Cid{vs[0].GetHash()}}, {GT: vs[0].GetHash()}, {LT: []cid.Cid{vs[len(vs)-1].GetHash()}, Amount: intp(2)}} {
+						_ = s.L.Iterator(o, make(chan iface.IPFSLogEntry, 4096))
+					}
+				}
 				for _, e := range s.L.Values().Slice() {
 					if e != nil {
 						_, _ = s.L.Get(e.GetHash())
@@ -334,3 +341,5 @@ func c13Bounded(run *evid.Run, i int, j *Journal) {
 }
 
 var _ = hx.Short
+
+func intp(n int) *int { return &n }
